@@ -105,7 +105,7 @@ def run(ctx):
                                "bare_layout": ctx.rng.random() < 0.5}})
     for i, t in enumerate(UNKNOWN):
         for via in ("text", "plss", "tract"):
-            cases.append({"id": "u%d%s" % (i, via[0]), "kind": "c13_unknown", "abs": {"kind": "unknown"},
+            cases.append({"id": "u%d%s" % (i, via[:2]), "kind": "c13_unknown", "abs": {"kind": "unknown"},
                           "args": {"text": t, "via": via}})
     ctx.exhaustive = True
     check(ctx, cases)
